@@ -120,6 +120,12 @@ func (this *RaftTransport) addNodeAddress(nodeId uint64, address string) {
 
 func (this *RaftTransport) removeNodeAddress(nodeId uint64) {
 	this.clusterConn.RemoveNode(nodeId)
+
+	// The client was built on the connection that was just closed. A node that
+	// joins again under the same id needs a new one.
+	this.nodeClientsMu.Lock()
+	delete(this.nodeClients, nodeId)
+	this.nodeClientsMu.Unlock()
 }
 
 func (this *RaftTransport) addGroup(group *RaftGroup) error {
